@@ -464,12 +464,19 @@ package redis
 //@   prop C04 C11 C02
 //@   consumes req
 //@   requires v != nil
+//@   callpre SetResponse @redirections-are-followed-not-relayed arg1 == v && !(v.Type == 45 && i != 0 - 1 && (lower(str(v.Text[:i])) == lower("moved") || lower(str(v.Text[:i])) == lower("ask")) && c.onRedirection != nil)
+//@   callpre field:client.onRedirection @only-moved-or-ask-errors-are-redirected arg0 == req && arg1 == v && v.Type == 45 && (lower(str(v.Text[:i])) == lower("moved") || lower(str(v.Text[:i])) == lower("ask"))
 
 //@ func (*upstream).handleRedirection
 //@   prop C04 C11 C02
 //@   consumes req
 //@   requires u != nil && req != nil && resp != nil && req.body != nil && len(req.body.Array) >= 1
 //@   requires @only-called-for-moved-or-ask nfields(str(resp.Text), " ") >= 1 ==> lower(field(str(resp.Text), " ", 0)) == "moved" || lower(field(str(resp.Text), " ", 0)) == "ask"
+//@   modifies all, smhas, smval, mrthCount, mrthAddr, mrthReq, mrthCmd, mrthPrevAddr, mrthPrevCmd
+//@   let txt = str(resp.Text)
+//@   ensures @moved-is-resent-once-to-the-named-node nfields(txt, " ") >= 3 && lower(field(txt, " ", 0)) == "moved" ==> mrthCount == old(mrthCount) + 1 && mrthAddr == field(txt, " ", 2) && mrthReq == req
+//@   ensures @ask-sends-asking-then-the-command-to-the-named-node nfields(txt, " ") >= 3 && lower(field(txt, " ", 0)) == "ask" ==> mrthCount == old(mrthCount) + 2 && mrthAddr == field(txt, " ", 2) && mrthReq == req && mrthPrevAddr == field(txt, " ", 2) && mrthPrevCmd == "asking"
+//@   ensures @malformed-redirection-is-not-forwarded nfields(txt, " ") < 3 ==> mrthCount == old(mrthCount)
 
 //@ func (*upstream).handleClusterDown
 //@   prop C04 C11 C02
@@ -677,7 +684,8 @@ package redis
 //@   consumes req
 //@   requires req != nil && req.body != nil && len(req.body.Array) >= 1
 //@   established (*upstream).getClient upstream.createClientCalls @pending-calls-wellformed forall k string :: smhas[u.createClientCalls][k] ==> typeis(smval[u.createClientCalls][k], "*createClientCall") && ifaceptr(smval[u.createClientCalls][k], "*createClientCall") != nil && ifaceptr(smval[u.createClientCalls][k], "*createClientCall").done != nil
-//@   modifies all, smhas, smval
+//@   modifies all, smhas, smval, mrthCount, mrthAddr, mrthReq, mrthCmd, mrthPrevAddr, mrthPrevCmd
+//@   ghostdef mrthCount == old(mrthCount) + 1 && mrthAddr == addr && mrthReq == req && mrthCmd == old(str(req.body.Array[0].Text)) && mrthPrevAddr == old(mrthAddr) && mrthPrevCmd == old(mrthCmd)
 //@   ensures @argument-arrays-keep-their-length forall x *simpleRequest :: x != nil && x.body != nil ==> len(x.body.Array) == old(len(x.body.Array))
 //@   assume @ret forall x *simpleRequest :: x != nil && x.body != nil ==> len(x.body.Array) == old(len(x.body.Array))
 
